@@ -13,7 +13,7 @@ var c02Fees = []uint64{0, 1, 100, 999, 1000, 2500}
 func coreC02(tier string) []RunSpec {
 	var out []RunSpec
 	for fi := range c02Fees {
-		for _, kind := range []string{"melt", "swap", "adversarial", "internal"} {
+		for _, kind := range []string{"melt", "swap", "adversarial", "internal", "mintrace"} {
 			out = append(out, RunSpec{Profile: "core:" + kind, Params: map[string]int{"force": mwKind(kind), "fee": fi}})
 		}
 	}
@@ -42,8 +42,8 @@ func runC02(rc *RunCtx) {
 		m.User.Fund("A", 300)
 	})
 	forced, isForced := rc.Spec.Params["force"]
-	// weights:       fund swap melt resolve replay dup race checkstate restore restart clock adv internal rotate
-	weights := []int{2, 5, 5, 2, 0, 0, 1, 0, 0, 2, 0, 4, 2, 1}
+	// weights:       fund swap melt resolve replay dup race checkstate restore restart clock adv internal rotate mintrace
+	weights := []int{2, 5, 5, 2, 0, 0, 1, 0, 0, 2, 0, 4, 2, 1, 2}
 	rc.StepLoop(3, 16, func(i int) {
 		m.step = i
 		kind := T.Pick("step.kind", weights...)
